@@ -141,3 +141,12 @@ Proof.
   - apply Qeq_alt in E. lra.
   - apply Qgt_alt in E. lra.
 Qed.
+
+(* record of the finding fixed by efb2198: sqrt(x*x + y*y) on binary64 is infinite for the finite point
+   (2^665, 0) (true radius 2^665) and zero for (2^-600, 0) (true radius 2^-600) *)
+From Coq Require Import Uint63 PrimFloat.
+Require Import Cherab.Model.C13_Float.
+Lemma radius_F_old_refuted :
+  F_same (radius_F_old (F_of_bits (FFin false 4503599627370496 613)) zero) infinity = true
+  /\ F_same (radius_F_old (F_of_bits (FFin false 4503599627370496 (-652))) zero) zero = true.
+Proof. vm_compute. split; reflexivity. Qed.
